@@ -25,10 +25,12 @@ static const double POISON_VAL = 1e15; // finite, far from anything generated, n
 // how samples are dropped in a case (exactly one mechanism, or the mixture) -> appears in violation keys
 // (mixed = selection + undefined values; undefined coordinates are kept apart because the library handles them
 //  poorly - see the report - and they would otherwise hide the interactions of the two main mechanisms)
-enum By { BY_NONE = 0, BY_SEL, BY_UVAL, BY_UCOORD, BY_MIXED };
+//  by=selna: the selection value of the dropped samples is the undefined value instead of 0.  Documented in
+//  Db::getSelection: "@remark If the selection value if TEST, the sample is considered as masked off."
+enum By { BY_NONE = 0, BY_SEL, BY_UVAL, BY_UCOORD, BY_MIXED, BY_SELNA };
 
 // Generator switches to steer away from input classes hit by known defects (default: off = everything generated).
-// Developer override: environment variable C05_AVOID="ball,ucoord".
+// Developer override: environment variable C05_AVOID="ball,ucoord,selna,ufext".
 inline bool avoid(const char* what, bool dflt)
 {
   const char* e = getenv("C05_AVOID");
@@ -37,12 +39,14 @@ inline bool avoid(const char* what, bool dflt)
 }
 static const bool AVOID_UCOORD = false; // do not generate samples with an undefined coordinate
 static const bool AVOID_BALL   = false; // do not generate moving neighbourhoods with the ball-tree search
-static const char* BYN[] = {"none", "sel", "uval", "ucoord", "mixed"};
+static const bool AVOID_SELNA  = false; // do not generate selections whose "off" value is the undefined value
+static const bool AVOID_UFEXT  = false; // do not generate samples whose external drift is undefined
+static const char* BYN[] = {"none", "sel", "uval", "ucoord", "mixed", "selna"};
 // selection shapes
 enum SelMode { SEL_NONE = 0, SEL_RANDOM, SEL_ALMOST_EMPTY, SEL_EMPTY, SEL_FULL };
 static const char* SELN[] = {"nosel", "random", "almost-empty", "empty", "full"};
 
-enum Cls { KEEP = 0, MASKED = 1, ALLUNDEF = 2, COORDUNDEF = 4 };
+enum Cls { KEEP = 0, MASKED = 1, ALLUNDEF = 2, COORDUNDEF = 4, FEXTUNDEF = 8 };
 
 struct Samples
 {
@@ -51,6 +55,8 @@ struct Samples
   std::vector<std::vector<double>> x; // [ndim][n] clean coordinates
   std::vector<std::vector<double>> z; // [nvar][n] clean values; TEST = cell undefined in the kept data (heterotopy)
   std::vector<double> w;              // optional weights (ELoc::W), empty = none
+  std::vector<double> f;              // optional external drift (ELoc::F), empty = none; undefined where cls has FEXTUNDEF
+  bool ufext = false;                 // some samples dropped because their external drift is undefined
   std::vector<int> cls;               // per sample: OR of Cls
   std::vector<int> kept;              // ranks with cls == KEEP, increasing
   By by           = BY_NONE;
@@ -60,7 +66,13 @@ struct Samples
   bool undefKeepCoord = false;
   bool hasSelColumn() const { return selMode != SEL_NONE; }
   int nkept() const { return (int)kept.size(); }
-  std::string tag() const { return std::string("by=") + BYN[by]; }
+  std::string tag() const { return std::string("by=") + BYN[by] + (ufext ? "+ufext" : ""); }
+  void rebuildKept()
+  {
+    kept.clear();
+    for (int i = 0; i < n; i++)
+      if (cls[i] == KEEP) kept.push_back(i);
+  }
   std::string sigtag() const
   {
     return fmt("by=%s:sel=%s:het=%d:pc=%d", BYN[by], SELN[selMode], (int)hetero, (int)poisonCoord);
@@ -95,6 +107,7 @@ struct GenOpt
   int nvarMax = 2;
   bool allowUcoord = true;  // operations with no spatial meaning do not get undefined coordinates
   bool allowEmpty  = true;
+  bool allowSelNA  = true;
   int minKept      = 0;     // (when not empty) lower bound on the number of kept samples
   bool positive    = false; // strictly positive values
   double pWeight   = 0.;    // probability of a weight column (ELoc::W)
@@ -124,16 +137,17 @@ inline Samples genSamples(Rng& r, const GenOpt& o)
   }
   // drop mechanism
   double u = r.u01();
-  s.by = u < 0.55 ? BY_SEL : u < 0.70 ? BY_UVAL : u < 0.80 ? BY_UCOORD : u < 0.95 ? BY_MIXED : BY_NONE;
+  s.by = u < 0.50 ? BY_SEL : u < 0.65 ? BY_UVAL : u < 0.75 ? BY_UCOORD : u < 0.90 ? BY_MIXED : u < 0.95 ? BY_NONE : BY_SELNA;
+  if (s.by == BY_SELNA && (!o.allowSelNA || avoid("selna", AVOID_SELNA))) s.by = BY_SEL;
   if ((!o.allowUcoord || avoid("ucoord", AVOID_UCOORD)) && s.by == BY_UCOORD) s.by = BY_SEL;
   s.cls.assign(s.n, KEEP);
   s.selMode = SEL_NONE;
-  if (s.by == BY_SEL || s.by == BY_MIXED)
+  if (s.by == BY_SEL || s.by == BY_MIXED || s.by == BY_SELNA)
   {
     double w = r.u01();
     s.selMode = w < 0.6 ? SEL_RANDOM : w < 0.8 ? SEL_ALMOST_EMPTY : w < 0.9 ? SEL_EMPTY : SEL_FULL;
     if (s.selMode == SEL_EMPTY && !o.allowEmpty) s.selMode = SEL_ALMOST_EMPTY;
-    if (s.by == BY_MIXED && s.selMode != SEL_FULL) s.selMode = SEL_RANDOM;
+    if ((s.by == BY_MIXED || s.by == BY_SELNA) && s.selMode != SEL_FULL) s.selMode = SEL_RANDOM;
     if (s.selMode == SEL_RANDOM)
     {
       double p = r.uni(0.15, 0.6);
@@ -207,7 +221,7 @@ inline VectorString varNames(int nvar)
 // Build a Db from explicit columns (coordinates, variables, optional selection)
 inline std::unique_ptr<Db> mkDb(int n, const std::vector<std::vector<double>>& x,
                                 const std::vector<std::vector<double>>& z, const std::vector<double>* sel,
-                                const std::vector<double>* wgt = nullptr)
+                                const std::vector<double>* wgt = nullptr, const std::vector<double>* fext = nullptr)
 {
   int ndim = (int)x.size(), nvar = (int)z.size();
   VectorDouble tab;
@@ -215,12 +229,14 @@ inline std::unique_ptr<Db> mkDb(int n, const std::vector<std::vector<double>>& x
   for (int d = 0; d < ndim; d++) { for (int i = 0; i < n; i++) tab.push_back(x[d][i]); names.push_back(fmt("x%d", d + 1)); }
   for (int v = 0; v < nvar; v++) { for (int i = 0; i < n; i++) tab.push_back(z[v][i]); names.push_back(fmt("z%d", v + 1)); }
   if (wgt && !wgt->empty()) { for (int i = 0; i < n; i++) tab.push_back((*wgt)[i]); names.push_back("w"); }
+  if (fext && !fext->empty()) { for (int i = 0; i < n; i++) tab.push_back((*fext)[i]); names.push_back("f1"); }
   if (sel) { for (int i = 0; i < n; i++) tab.push_back((*sel)[i]); names.push_back("sel"); }
   std::unique_ptr<Db> db(Db::createFromSamples(n, ELoadBy::COLUMN, tab, names, VectorString(), true));
   if (!db) return db;
   for (int d = 0; d < ndim; d++) db->setLocator(names[d], ELoc::X, d);
   for (int v = 0; v < nvar; v++) db->setLocator(names[ndim + v], ELoc::Z, v);
   if (wgt && !wgt->empty()) db->setLocator("w", ELoc::W, 0);
+  if (fext && !fext->empty()) db->setLocator("f1", ELoc::F, 0);
   if (sel) db->setLocator("sel", ELoc::SEL, 0);
   return db;
 }
@@ -229,7 +245,7 @@ inline std::unique_ptr<Db> mkDb(int n, const std::vector<std::vector<double>>& x
 inline std::unique_ptr<Db> mkMasked(Rng& r, const Samples& s)
 {
   std::vector<std::vector<double>> x = s.x, z = s.z;
-  std::vector<double> sel(s.n, 1.), w = s.w;
+  std::vector<double> sel(s.n, 1.), w = s.w, f = s.f;
   for (int i = 0; i < s.n; i++)
   {
     int c = s.cls[i];
@@ -237,9 +253,10 @@ inline std::unique_ptr<Db> mkMasked(Rng& r, const Samples& s)
     bool farCoord = s.poisonCoord;
     if (s.undefKeepCoord && !(c & MASKED)) farCoord = false;
     if (!w.empty()) w[i] = POISON_VAL;
+    if (!f.empty()) f[i] = (c & FEXTUNDEF) ? TEST : POISON_VAL;
     if (c & MASKED)
     {
-      sel[i] = 0.;
+      sel[i] = s.by == BY_SELNA ? TEST : 0.;
       for (int v = 0; v < s.nvar; v++) z[v][i] = POISON_VAL * (1 + v);
     }
     if (c & ALLUNDEF)
@@ -254,21 +271,22 @@ inline std::unique_ptr<Db> mkMasked(Rng& r, const Samples& s)
         for (int v = 0; v < s.nvar; v++) z[v][i] = POISON_VAL * (1 + v);
     }
   }
-  return mkDb(s.n, x, z, s.hasSelColumn() ? &sel : nullptr, &w);
+  return mkDb(s.n, x, z, s.hasSelColumn() ? &sel : nullptr, &w, &f);
 }
 
 inline std::unique_ptr<Db> mkReduced(const Samples& s)
 {
   int nk = s.nkept();
   std::vector<std::vector<double>> x(s.ndim, std::vector<double>(nk)), z(s.nvar, std::vector<double>(nk));
-  std::vector<double> w;
+  std::vector<double> w, f;
   for (int k = 0; k < nk; k++)
   {
+    if (!s.f.empty()) f.push_back(s.f[s.kept[k]]);
     for (int d = 0; d < s.ndim; d++) x[d][k] = s.x[d][s.kept[k]];
     for (int v = 0; v < s.nvar; v++) z[v][k] = s.z[v][s.kept[k]];
     if (!s.w.empty()) w.push_back(s.w[s.kept[k]]);
   }
-  return mkDb(nk, x, z, nullptr, &w);
+  return mkDb(nk, x, z, nullptr, &w, &f);
 }
 
 inline bool sameBits(double a, double b) { return std::memcmp(&a, &b, sizeof(double)) == 0; }
@@ -291,14 +309,15 @@ struct CmpRes
 };
 
 // compare column 'nameA' of dbA at rows mapA[k] with column 'nameB' of dbB at rows k (k = 0 … mapA.size()-1)
+// (or rows mapB[k] when mapB is given)
 inline void cmpColumn(const Db* dbA, const std::string& nameA, const std::vector<int>& mapA, const Db* dbB,
-                      const std::string& nameB, CmpRes& res)
+                      const std::string& nameB, CmpRes& res, const std::vector<int>* mapB = nullptr)
 {
   VectorDouble a = dbA->getColumn(nameA, false, false);
   VectorDouble b = dbB->getColumn(nameB, false, false);
   for (size_t k = 0; k < mapA.size(); k++)
   {
-    double va = a[mapA[k]], vb = b[k];
+    double va = a[mapA[k]], vb = b[mapB ? (*mapB)[k] : (int)k];
     res.ncell++;
     if (sameBits(va, vb)) { res.nexact++; if (!FFFF(vb)) res.scale = std::max(res.scale, std::fabs(vb)); continue; }
     double e;
@@ -307,7 +326,7 @@ inline void cmpColumn(const Db* dbA, const std::string& nameA, const std::vector
     if (e > res.worst)
     {
       res.worst = e;
-      res.where = fmt("%s[row %d] masked-run=%.17g reduced-run[row %zu]=%.17g", nameA.c_str(), mapA[k], va, k, vb);
+      res.where = fmt("%s[row %d] masked-run=%.17g reduced-run[row %d]=%.17g", nameA.c_str(), mapA[k], va, mapB ? (*mapB)[k] : (int)k, vb);
     }
   }
 }
